@@ -21,6 +21,8 @@ class Ctx(object):
         if self._mir is None:
             self._mir = Facts(os.path.join(self.dir, "mir.json"))
             absint.register_adts(self._mir)
+            import domain
+            domain.register_diag_fields(self._mir)
         return self._mir
 
     @property
